@@ -61,10 +61,21 @@ def source_data(step):
 
 
 # block-local functions usable in map_blocks (must commute with blocking)
+def zzz_scale(b):
+    return b * 5 + 2
+
+
+def aaa_shift(b):
+    return b - 4
+
+
 BLOCK_FUNCS = {
     "affine": lambda b: b * 3 - 1,
     "sq": lambda b: b * b,
     "neg": lambda b: -b,
+    # named functions: graph key prefixes (and with them set/sort orders inside the optimizer) vary
+    "zzz_scale": zzz_scale,
+    "aaa_shift": aaa_shift,
 }
 
 UNARY = {
@@ -122,7 +133,8 @@ def apply_step(step, env, m, da_mode):
     if op == "stack":
         return m.stack(A, axis=step["axis"])
     if op == "expand_dims":
-        return m.expand_dims(A[0], step["axis"])
+        ax = step["axis"]
+        return m.expand_dims(A[0], tuple(ax) if isinstance(ax, list) else ax)
     if op == "squeeze":
         return m.squeeze(A[0], axis=step["axis"])
     if op == "flip":
@@ -196,7 +208,7 @@ MINI_OPS = (
 DEFAULT_OPS = (
     "unary", "unary", "binary", "binary", "binary_new", "transpose", "getitem", "getitem", "rechunk", "reduce",
     "reduce", "cumsum", "concatenate", "stack", "expand_dims", "squeeze", "flip", "roll", "reshape",
-    "broadcast_to", "map_blocks", "swv_reduce", "take", "clip", "diff",
+    "broadcast_to", "map_blocks", "swv_reduce", "take", "clip", "diff", "self_transpose",
 )
 
 
@@ -220,8 +232,10 @@ def rand_basic_index(rng, shape, allow_none=True, allow_neg_step=True, allow_int
         # drop trailing full slices
         while idx and isinstance(idx[-1], slice) and idx[-1] == slice(None):
             idx.pop()
-    if allow_none and rng.random() < 0.2:
+    if allow_none and rng.random() < 0.25:
         idx.insert(rng.randint(0, len(idx)), None)
+        if rng.random() < 0.4:
+            idx.insert(rng.randint(0, len(idx)), None)
     return tuple(idx)
 
 
@@ -400,7 +414,25 @@ class ProgGen:
         x = self.env[a]
         if x.ndim >= self.maxrank + 1:
             raise _Skip
+        if not self.basic_only and x.ndim <= self.maxrank - 1 and self.rng.random() < 0.3:
+            axes = sorted(self.rng.sample(range(x.ndim + 2), 2))
+            return self.add({"op": "expand_dims", "args": [a], "axis": axes})
         return self.add({"op": "expand_dims", "args": [a], "axis": self.rng.randint(0, x.ndim)})
+
+    def g_self_transpose(self):
+        """a (op) a.T for square 2-D arrays: one node consumed under two block mappings."""
+        cands = [k for k, v in self.env.items() if v.ndim == 2 and v.shape[0] == v.shape[1] and v.shape[0] > 0]
+        if not cands:
+            # make one
+            n = self.rng.randint(2, 5)
+            cands = [self.new_source((n, n))]
+        a = self.rng.choice(cands)
+        if self.rng.random() < 0.6:
+            a = self.add({"op": self.rng.choice(list(UNARY)), "args": [a]})
+            if self.rng.random() < 0.6:
+                a = self.add({"op": "map_blocks", "args": [a], "fn": self.rng.choice(list(BLOCK_FUNCS))}, tags=("map_blocks",))
+        t = self.add({"op": "transpose", "args": [a], "axes": [1, 0]})
+        return self.add({"op": self.rng.choice(list(BINARY)), "args": [a, t] if self.rng.random() < 0.5 else [t, a]})
 
     def g_squeeze(self):
         a = self.pick()
